@@ -5,6 +5,7 @@ lm::SuffixOrder/ContextOrder/PrefixOrder and lm::builder::CombineCounts) ; speci
 property text (sorted, multiset equal, per-key totals equal, duplicate-free when every input block is) ; extracted
 model on the same cases (records up to key order, and -- behind the KPU_KENLM_VERIF observer hook -- the grouping
 decisions of every merge pass) ; the real util::stream::Offsets against its model."""
+import hashlib
 import os
 import struct
 import sys
@@ -18,6 +19,21 @@ M64 = (1 << 64) - 1
 
 def hx(x):
     return "%x" % x
+
+
+def build_shim():
+    """harness/shim/io_shim.c (shared with C15/C09): oracle mode = dictated return lengths on one descriptor, storm mode =
+    every read/write/pread/pwrite of the process is randomly shortened (1 byte, arbitrary counts) or interrupted"""
+    src = os.path.join(vlib.ROOT, "harness", "shim", "io_shim.c")
+    outdir = os.path.join(vlib.CACHE, "shim")
+    os.makedirs(outdir, exist_ok=True)
+    key = hashlib.sha256(open(src, "rb").read()).hexdigest()[:16]
+    so = os.path.join(outdir, "io_shim-%s.so" % key)
+    if not os.path.exists(so):
+        tmp = so + ".%d.tmp" % os.getpid()
+        vlib.sh(["gcc", "-O2", "-shared", "-fPIC", "-o", tmp, src, "-ldl"], timeout=120, check=True)
+        os.replace(tmp, so)
+    return so
 
 
 # ---------------------------------------------------------------------------------------------
@@ -196,19 +212,35 @@ def gen_key(rng, c, keyspace, style, i, n_total):
     return tuple(words)
 
 
-def gen_case(rng, big):
+def shape_for_size(rng, c, es):
+    """choose key kind / width / payload so that the record is exactly es bytes"""
+    if es >= 4 and rng.chance(1, 2):
+        c.kind = rng.choice(["S", "C", "P"])
+        c.n = rng.range(1, min(6, es // 4))
+        c.pw = es - 4 * c.n
+    else:
+        c.kind = "I"
+        c.n = rng.range(1, min(8, es))
+        c.pw = es - c.n
+    c.comb = c.pw == 8 and rng.chance(1, 2)
+
+
+def gen_case(rng, big, es=None):
     c = Case()
-    c.kind = rng.choice(["I", "I", "S", "S", "C", "P"])
-    c.comb = rng.chance(2, 5)
-    if c.kind == "I":
-        c.n = rng.choice([1, 2, 3, 4, 5, 8, rng.range(1, 8)])
+    if es is not None:
+        shape_for_size(rng, c, es)
     else:
-        c.n = rng.range(1, 6)
-    kb = c.n if c.kind == "I" else 4 * c.n
-    if c.comb:
-        c.pw = 8
-    else:
-        c.pw = rng.choice([0, 0, 1, 4, 8, rng.range(0, 64 - kb), 64 - kb])
+        c.kind = rng.choice(["I", "I", "S", "S", "C", "P"])
+        c.comb = rng.chance(2, 5)
+        if c.kind == "I":
+            c.n = rng.choice([1, 2, 3, 4, 5, 8, rng.range(1, 8)])
+        else:
+            c.n = rng.range(1, 6)
+        kb = c.n if c.kind == "I" else 4 * c.n
+        if c.comb:
+            c.pw = 8
+        else:
+            c.pw = rng.choice([0, 0, 1, 4, 8, rng.range(0, 64 - kb), 64 - kb])
     es = c.es()
     # sort configuration: boundaries first
     bq = rng.choice([1, 1, 2, 3, rng.range(1, 12), rng.range(1, 60)])
@@ -313,6 +345,111 @@ def dedupe_block(blk):
     return out
 
 
+# ---- block contents that stress the in-memory block sort (SizedSort = std::sort = introsort) ----------------------
+def pattern_keys(rng, name, n, killers):
+    if name == "killer":                      # McIlroy's adversary against this std::sort: forces the heapsort fallback
+        return list(killers[n])
+    if name == "organ":
+        return [min(i, n - 1 - i) for i in range(n)]
+    if name == "equal-runs":
+        out, v = [], 0
+        while len(out) < n:
+            out += [v] * rng.range(1, max(1, n // 3))
+            v = rng.below(5)
+        return out[:n]
+    if name == "one-swap":
+        a = list(range(n))
+        if n > 1:
+            i, j = rng.below(n), rng.below(n)
+            a[i], a[j] = a[j], a[i]
+        return a
+    if name == "median3":                     # Musser's median-of-3 killer: 1 k+1 3 k+3 ... 2 4 6 ...
+        k = max(1, n // 2)
+        a = [0] * (2 * k + 2)
+        for i in range(1, k + 1):
+            if i % 2 == 1:
+                a[i - 1] = i
+                a[i] = k + i
+            a[k + i - 1] = 2 * i
+        return a[:n]
+    return [rng.below(n) for _ in range(n)]
+
+
+KILLER_LENGTHS = (48, 120, 250, 1000, 3000)
+
+
+def gen_adversarial(rng, killers, big):
+    """every record size 1..40 (the sizes without a std::sort specialisation go through SizedIterator / FreePool) x block
+    contents on which introsort exhausts its depth limit, one adversarial sequence per chain block"""
+    cases = []
+    sizes = list(range(1, 41)) + [1, 2, 3, 5, 6, 7, 9, 10, 11] * (2 if big else 1)
+    for es in sizes:
+        for rep in range(2):
+            c = Case()
+            c.kind = "I"
+            c.n = rng.range(1, min(8, es)) if rep else min(8, es)
+            c.pw = es - c.n
+            c.comb = False
+            top = (1 << (8 * c.n)) - 1
+            pat = "killer" if rep == 0 else rng.choice(["killer", "organ", "equal-runs", "one-swap", "median3"])
+            L = rng.choice([l for l in KILLER_LENGTHS if l - 1 <= top and (big or l <= 1000)])
+            nblocks = rng.choice([1, 1, 2, 5]) if L <= 250 else 1
+            c.blocks = []
+            tag = 0
+            for _b in range(nblocks):
+                keys = pattern_keys(rng, pat, L, killers)
+                blk = []
+                for k in keys:
+                    blk.append(((k & top,), tag & ((1 << (8 * c.pw)) - 1) if c.pw else 0))
+                    tag += 1
+                c.blocks.append(blk)
+            c.fill = "E"
+            c.cbc = rng.range(1, 3)
+            c.cmem = L * es * c.cbc
+            b = es * rng.choice([1, 3, 10])
+            c.buf, c.tot = b, 4 * b + rng.below(3 * b + 1)
+            c.lazy = rng.choice([0, b, c.tot])
+            c.mode = rng.choice(["O", "M", "S"])
+            c.why = "adversarial %s L=%d es=%d" % (pat, L, es)
+            cases.append(c)
+    return cases
+
+
+def gen_pread(rng, n):
+    cases = []
+    for _ in range(n):
+        flen = rng.choice([0, 1, 2, rng.range(0, 40), rng.range(0, 200)])
+        data = bytes(rng.below(256) for _ in range(flen))
+        off = rng.choice([0, rng.below(flen + 1), flen])
+        size = rng.choice([0, 1, flen - off, rng.below(flen - off + 1), flen - off + rng.choice([0, 0, 1, 5])])
+        size = max(0, size)
+        script = []
+        for _i in range(rng.range(0, 12)):
+            script.append(rng.choice(["i", "d1", "d1", "d2", "d3", "d%d" % max(1, size // 2), "d%d" % rng.range(1, 9), "d100000"]))
+        script += ["d1"] * (size + 2) if rng.chance(1, 2) else ["d%d" % rng.range(1, 7) for _i in range(size + 2)]
+        cases.append("PR %s %x %x %s" % (data.hex() or "-", off, size, ",".join(script)))
+    return cases
+
+
+def oracle_pread(case, o):
+    """specification: ErsatzPRead(to, size, off) delivers bytes [off, off+size) of the file, whatever lengths pread returns"""
+    f = case.split()
+    data = bytes.fromhex(f[1]) if f[1] != "-" else b""
+    off, size = int(f[2], 16), int(f[3], 16)
+    r = o.split()
+    if not r or r[0] == "NOSHIM":
+        return "I/O shim not loaded: %s" % o
+    if "WROTE-PAST-BUFFER" in o:
+        return "ErsatzPRead wrote beyond the buffer"
+    if off + size <= len(data):
+        exp = data[off:off + size].hex() or "-"
+        if r[0] != "OK" or r[1] != exp:
+            return "ErsatzPRead delivered %s, bytes [off, off+size) are %s" % (" ".join(r[:2])[:120], exp[:100])
+    elif r[0] == "OK":
+        return "ErsatzPRead returned although the range reaches beyond the end of the file"
+    return None
+
+
 def gen_offsets(rng, n):
     cases = []
     for _ in range(n):
@@ -366,7 +503,7 @@ def corpus_cases():
 # ---------------------------------------------------------------------------------------------
 # large inputs (thorough tier): raw files, 8-byte integer keys, optional 8-byte count
 def big_case(ctx, impl, idx, n, comb, style, buf, tot, lazy, cbc, cmem, mode):
-    rng = ctx.rng
+    rng = ctx.rng.fork()      # vlib.Rng(seed) streams of neighbouring seeds are shifted copies of one another (they re-synchronise); a forked stream starts far away
     es = 16 if comb else 8
     inp = os.path.join(ctx.scratch, "big%d.in" % idx)
     outp = os.path.join(ctx.scratch, "big%d.out" % idx)
@@ -427,14 +564,27 @@ def run(ctx):
     pres = vlib.coq_prove("C16")
     ctx.set_proof(pres)
     big = not ctx.quick
-    rng = ctx.rng
+    rng = ctx.rng.fork()      # vlib.Rng(seed) streams of neighbouring seeds are shifted copies of one another (they re-synchronise); a forked stream starts far away
     impl = vlib.compile_driver("c16_driver", DRIVER, libs=("kenlm", "kenlm_util"))
     env = {"VERIF_TMP": os.path.join(ctx.scratch, "tmp-")}
 
     sort_cases = [parse_case(l) for l in corpus_cases() if l.startswith("S ")]
     off_cases = [l for l in corpus_cases() if l.startswith("OFF")]
     ctx.count("corpus_cases", len(sort_cases) + len(off_cases))
-    sort_cases += [gen_case(rng, big) for _ in range(ctx.pick(700, 6000))]
+    n_gen = ctx.pick(700, 6000)
+    # every record size 1..40 occurs (the first cases cycle through them), the rest draws sizes at random up to 64
+    sort_cases += [gen_case(rng, big, es=(1 + i % 40) if i < ctx.pick(120, 800) else None) for i in range(n_gen)]
+    # adversarial block contents: the killer sequences are computed by the driver against the std::sort it is linked with
+    kl = [l for l in KILLER_LENGTHS if big or l <= 1000]
+    kout = vlib.run_lines(impl, ["KILLER %x" % l for l in kl], timeout=300, env=env)
+    killers = {}
+    for l, o in zip(kl, kout):
+        killers[l] = [int(x, 16) for x in o.split()]
+        if len(killers[l]) != l:
+            raise vlib.InfraError("KILLER %d: %s" % (l, o[:200]))
+    adv_cases = gen_adversarial(rng, killers, big)
+    adv_start = len(sort_cases)
+    sort_cases += adv_cases
     off_cases += gen_offsets(rng, ctx.pick(400, 4000))
     lines = [c.line() for c in sort_cases]
     iout = vlib.run_lines(impl, lines + off_cases, timeout=ctx.pick(300, 1500), env=env)
@@ -495,6 +645,55 @@ def run(ctx):
     except vlib.ModelBroken as e:
         model_broken = str(e)
 
+    # ---- the same sorts with every read()/write()/pread()/pwrite() randomly shortened (down to 1 byte) or interrupted:
+    #      the output must still be the sorted multiset (oracle) and equal to the undisturbed run up to equal keys
+    shim = build_shim()
+    storm_idx = [i for i, c in enumerate(sort_cases) if sum(len(b) for b in c.blocks) <= 1500 and sout[i].startswith("OK")]
+    storm_idx = storm_idx[:ctx.pick(260, 2000)]
+    storm_runs = 0
+    for sseed, permille in ((ctx.seed * 7 + 1, 1000), (ctx.seed * 7 + 2, 400)):
+        senv = dict(env, LD_PRELOAD=shim, IO_SHIM_STORM="%d:%d" % (sseed, permille), VERIF_ALARM="60")
+        half = storm_idx[0::2] if permille == 1000 else storm_idx[1::2]
+        so = vlib.run_lines(impl, [lines[i] for i in half], timeout=ctx.pick(400, 1500), env=senv)
+        for i, o in zip(half, so):
+            storm_runs += 1
+            c = sort_cases[i]
+            msg = oracle(c, o)
+            if not msg:
+                st1, r1, rec1, _ = parse_out(sout[i])
+                st2, r2, rec2, _ = parse_out(o)
+                if st2 != st1 or canon(c, rec1 or []) != canon(c, rec2 or []):
+                    msg = "output differs from the run with full-length reads/writes"
+            if msg:
+                spec_fail.append(("sort:short-io:%s" % c.mode, lines[i], o, "with reads/writes transferring fewer bytes than requested: " + msg,
+                                  {"kind": "storm", "seed": sseed, "permille": permille, "how": "LD_PRELOAD=io_shim.so IO_SHIM_STORM=%d:%d c16_driver" % (sseed, permille)}))
+    # ---- util::ErsatzPRead driven directly with dictated pread return lengths (oracle mode of the shim)
+    pr_cases = gen_pread(rng, ctx.pick(400, 4000))
+    pr_out = vlib.run_lines(impl, pr_cases, timeout=300, env=dict(env, LD_PRELOAD=shim))
+    for l, o in zip(pr_cases, pr_out):
+        msg = oracle_pread(l, o)
+        if msg:
+            spec_fail.append(("ersatz_pread", l, o, msg, {"kind": "shim", "how": "LD_PRELOAD=io_shim.so c16_driver"}))
+    try:
+        pr_model = vlib.run_lines(vlib.ocaml_model("C16"), pr_cases, timeout=300)
+        for l, a_, b_ in zip(pr_cases, pr_out, pr_model):
+            if a_ != b_:
+                mismatches.append((l, a_, b_, "pread"))
+    except vlib.ModelBroken as e:
+        model_broken = str(e)
+    # ---- the adversarial block contents again under AddressSanitizer + UBSan: a stray free-list link or a wild copy in the
+    #      generic SizedSort path is observed even when it does not crash
+    asan_runs = 0
+    impl_asan = vlib.compile_driver("c16_driver", DRIVER, libs=("kenlm", "kenlm_util"), variant="asan")
+    aenv = dict(env, ASAN_OPTIONS="detect_leaks=0:abort_on_error=0:exitcode=99", VERIF_ALARM="120")
+    alines = [lines[adv_start + i] for i in range(len(adv_cases))]
+    ao = vlib.run_lines(impl_asan, alines, timeout=ctx.pick(600, 1800), env=aenv)
+    for c, l, o in zip(adv_cases, alines, ao):
+        asan_runs += 1
+        msg = oracle(c, o)
+        if msg:
+            spec_fail.append(("sort:asan:%s" % c.why.split()[1], l, o, "under AddressSanitizer: " + msg, {"kind": "asan", "how": "c16_driver built with the asan variant"}))
+
     # large inputs: oracle only
     big_runs = []
     if big:
@@ -509,7 +708,12 @@ def run(ctx):
             if msg:
                 spec_fail.append(("sort:big:%s" % ("combine" if comb else "plain"), line, o, msg))
 
-    ctx.count("evaluations", len(lines) + len(off_cases) + len(big_runs))
+    ctx.count("evaluations", len(lines) + len(off_cases) + len(big_runs) + storm_runs + len(pr_cases) + asan_runs)
+    ctx.coverage["short_io_runs"] = storm_runs
+    ctx.coverage["ersatz_pread_cases"] = len(pr_cases)
+    ctx.coverage["adversarial_block_cases"] = len(adv_cases)
+    ctx.coverage["asan_runs"] = asan_runs
+    ctx.coverage["record_sizes_covered"] = sorted({c.es() for c in sort_cases})
     ctx.coverage["distinct_nontrivial"] = len(nontrivial)
     ctx.coverage["rule"] = ("cases = corpus + generated.  Sort case: record size 1..64 bytes (integer keys of 1..8 bytes, or 1..6 32-bit words under "
                             "SuffixOrder/ContextOrder/PrefixOrder), optional combiner (the real CombineCounts for SuffixOrder), buffer_size from one entry "
@@ -532,8 +736,13 @@ def run(ctx):
                         "extraction (ExtrOcamlBasic only), the OCaml and C++ drivers and the Python oracle are trusted",
                         "the observer hook (KPU_KENLM_VERIF) reports (runs merged, bytes written) per merge group; it is a second, white-box correspondence"]
     # decide
-    for sig, l, o, msg in spec_fail[:5]:
-        ctx.report("spec:" + sig, msg, {"case": l[:200000], "impl_output": o[:2000], "how": "echo '<case>' | c16_driver (harness/drivers/c16_driver.cc); ./check C16 --replay <this file>"})
+    seen_sigs = []
+    for sig, l, o, msg, *rest in spec_fail:          # one report per signature, at most 8 signatures
+        if sig in seen_sigs or len(seen_sigs) >= 8:
+            continue
+        seen_sigs.append(sig)
+        ctx.report("spec:" + sig, msg, {"case": l[:200000], "impl_output": o[:2000], "variant": rest[0] if rest else None,
+                                        "how": "echo '<case>' | c16_driver (harness/drivers/c16_driver.cc); ./check C16 --replay <this file>"})
     if not spec_fail:
         if mismatches:
             l, a, b, what = mismatches[0]
@@ -552,15 +761,28 @@ def run(ctx):
 
 
 def replay(ctx, obj):
-    impl = vlib.compile_driver("c16_driver", DRIVER, libs=("kenlm", "kenlm_util"))
-    l = obj["replay"]["case"]
-    o = vlib.run_lines(impl, [l], env={"VERIF_TMP": os.path.join(ctx.scratch, "tmp-")})[0]
+    r = obj["replay"]
+    v = r.get("variant") or {}
+    env = {"VERIF_TMP": os.path.join(ctx.scratch, "tmp-")}
+    if v.get("kind") == "asan":
+        impl = vlib.compile_driver("c16_driver", DRIVER, libs=("kenlm", "kenlm_util"), variant="asan")
+        env.update(ASAN_OPTIONS="detect_leaks=0:abort_on_error=0:exitcode=99", VERIF_ALARM="120")
+    else:
+        impl = vlib.compile_driver("c16_driver", DRIVER, libs=("kenlm", "kenlm_util"))
+        if v.get("kind") == "storm":
+            env.update(LD_PRELOAD=build_shim(), IO_SHIM_STORM="%d:%d" % (v["seed"], v["permille"]), VERIF_ALARM="60")
+        elif v.get("kind") == "shim":
+            env.update(LD_PRELOAD=build_shim())
+    l = r["case"]
+    o = vlib.run_lines(impl, [l], env=env)[0]
     if l.startswith("OFF"):
         msg = oracle_offsets(l, o)
+    elif l.startswith("PR "):
+        msg = oracle_pread(l, o)
     elif l.startswith("S "):
         msg = oracle(parse_case(l), o)
     else:
         msg = None
         print("large-input case: rerun ./check C16 --tier thorough with VERIF_SEED=%s" % obj.get("seed"))
-    print("case:", l[:500], "\nimpl:", o[:500], "\noracle:", msg or "ok")
+    print("case:", l[:500], "\nvariant:", v.get("how", "plain"), "\nimpl:", o[:500], "\noracle:", msg or "ok")
     return 1 if msg else 0
